@@ -375,6 +375,9 @@ def run(ctx):
     if getattr(ctx, "replay", None):
         if A.is_chunk_replay(ctx.replay):
             return A.replay_c13(ctx, ctx.replay)
+        if "abs-geom " in open(ctx.replay).read():
+            from .. import absreplay
+            return absreplay.replay(ctx, ctx.replay)      # a read history with chunk queries, judged by `sfmodel abs` (vlib/queryfix.py)
         return ctx.replay_script(ctx.replay)
     failed = ctx.lean_stage(modules_for("C13"))
     found_input = False
@@ -497,6 +500,9 @@ def run(ctx):
             v("corr-" + name, "# C13 correspondence: model and implementation disagree on %s (%s) although the property predicate holds on the\n"
                           "# implementation's transcript.  first differing chunk-op line %d:\n#   model: %s\n#   impl : %s\n--- script\n%s"
                           % (name, cont, k, (ml[1 + k] if 1 + k < len(ml) else "<none>")[:300], (il[k] if k < len(il) else "<none>")[:300], script), no_input=True)
+    from .. import queryfix     # "without disturbing audio": a chunk query between two reads at a position != 0, every codec of every chunk-carrying container
+    if queryfix.run(ctx, "C13"):
+        found_input = True
     ctx.notes["further_failing_scripts_not_listed"] = {"%s/%s/%s" % k: n - 1 for k, n in reported.items() if n > 1}
     ctx.sample({"campaign": "count-wav-017", "script_head": S[17][3][:400]})
     ctx.sample({"campaign": "kinds", "scripts_per_kind": kinds})
